@@ -402,7 +402,7 @@ pub fn c12(a: &Args) -> (Stats, String) {
         if v.len() > 3 {
             let bg = v[0];
             let diff: Vec<usize> = (0..v.len()).filter(|&i| v[i] != bg).collect();
-            let keep = diff.is_empty() || diff[0] == v.len() - 1 || (diff[0] == v.len() / 2 && (bg == 0 || bg == u64::MAX));
+            let keep = diff.is_empty() || diff[0] == v.len() - 1 || (diff[0] == v.len() / 2 && (bg == 0 || bg == u64::MAX)) || (a.thorough && (diff[0] == 0 || diff[0] == 1));
             if keep && (a.thorough || matches!(bg, 0 | 1 | u64::MAX) || diff.is_empty()) {
                 sub.push(v.clone());
             }
